@@ -93,7 +93,9 @@ def run(chk):
         chk.require(fm(pat, s) is None, 'C17.R3', repo.where(pci.module, call), q_ps, f'separator pattern {pat!r} on {s!r}',
                     f'the content line {s!r} does not separate games', f'separator pattern {pat!r} treats the content line {s!r} as a game separator')
     # buffers re-initialised unconditionally in the separator branch, then `continue`
-    resets = [s for s in sep_if.body if isinstance(s, ast.Assign) and ast.unparse(s.targets[0]) == 'self.tag_pair_buffer'
+    from .common import flatten_self_calls
+    sep_body = flatten_self_calls(repo, 'PbnParser', sep_if.body)
+    resets = [s for s in sep_body if isinstance(s, ast.Assign) and ast.unparse(s.targets[0]) == 'self.tag_pair_buffer'
               and ast.unparse(s.value) in ('list()', '[]')]
     ends = sep_if.body and isinstance(sep_if.body[-1], ast.Continue)
     chk.require(len(resets) == 1 and ends, 'C17.R3', repo.where(pci.module, sep_if), q_ps, 'separator branch resets the tag buffer and continues',
